@@ -35,6 +35,7 @@ type Unit struct {
 	cgKind   string
 	declOf   map[*types.Func]*ast.FuncDecl
 	fidx     *flowIndex
+	nameMaps map[string]map[string]string // refnames.go
 }
 
 // BuildConfig describes one build configuration to load.
